@@ -393,11 +393,23 @@ theorem firstViolation_append (a b : List (Bool × Outcome)) (d : Outcome) :
     obtain ⟨c, o⟩ := x
     simp only [List.cons_append, firstViolation_cons, ih]
 
+/-- SEP-2575 as the property states it: the per-request-metadata rules (stateful servers refuse; the version header is
+required, `_meta` carries a version, and the two are equal) apply to a request iff the version header names a protocol
+≥ 2026-07-28 or the request carries a `_meta` protocol version.  Nothing else about the body enters — in particular
+not whether the body is a JSON array (`readBatch`'s `isBatch`). -/
+def metaApplies (pv mv : Bytes) : Bool := bLe protocolVersion20260728 pv || mv != []
+
+/-- **meta_gate_ignores_batch.** The condition under which `servePOST` runs the SEP-2575 block for a request (regenerated
+from the source, with `isBatch` in scope) is `metaApplies`: it does not depend on the body being an array. -/
+theorem meta_gate_ignores_batch (isBatch : Bool) (pv mv : Bytes) :
+    perRequestMetaApplies isBatch pv mv = metaApplies pv mv := by
+  cases isBatch <;> rfl
+
 /-- The checks of one message in the loop of `servePOST`, in the code's order, with the mandated answers. -/
 def msgChecks (stateless : Bool) (version : Bytes) (m : Msg) : List (Bool × Outcome) :=
   if !m.isReq then [] else
   let pv := effVersion version
-  let app := perRequestMetaApplies pv m.metaVersion
+  let app := metaApplies pv m.metaVersion
   [ (decide (m.check = .notHandled) && methodNotFoundAs404 pv && m.isCall, rejRpc 404 codeMethodNotFound),
     (decide (m.check ≠ .ok), rej 400),
     (app && !stateless && decide (m.method ≠ methodDiscover), rejRpc 400 codeUnsupportedProtocolVersion),
@@ -405,10 +417,11 @@ def msgChecks (stateless : Bool) (version : Bytes) (m : Msg) : List (Bool × Out
     (app && decide (m.metaVersion = []), rejRpc 400 codeInvalidParams),
     (app && decide (version ≠ m.metaVersion), rejRpc 400 codeHeaderMismatch) ]
 
-theorem msgGate_table (stateless : Bool) (version : Bytes) (m : Msg) (d : Outcome) :
+theorem msgGate_table (stateless isBatch : Bool) (version : Bytes) (m : Msg) (d : Outcome) :
     firstViolation (msgChecks stateless version m) d =
-      (match msgGate stateless version m with | some o => o | none => d) := by
+      (match msgGate stateless isBatch version m with | some o => o | none => d) := by
   unfold msgChecks msgGate
+  simp only [meta_gate_ignores_batch]
   by_cases hr : m.isReq = true
   · simp only [hr, Bool.not_true, Bool.false_eq_true, if_false, firstViolation_cons, firstViolation_nil]
     cases hc : m.check with
@@ -416,7 +429,7 @@ theorem msgGate_table (stateless : Bool) (version : Bytes) (m : Msg) (d : Outcom
     | invalid => simp [hc]
     | ok =>
       simp only [hc, reduceCtorEq, decide_false, Bool.false_and, Bool.false_eq_true, if_false, ne_eq, not_true_eq_false]
-      by_cases happ : perRequestMetaApplies (effVersion version) m.metaVersion = true
+      by_cases happ : metaApplies (effVersion version) m.metaVersion = true
       · simp only [happ, Bool.true_and, if_true]
         by_cases h1 : stateless = false ∧ ¬m.method = methodDiscover
         · simp [h1]
@@ -428,14 +441,14 @@ theorem msgGate_table (stateless : Bool) (version : Bytes) (m : Msg) (d : Outcom
       · simp [happ]
   · simp [hr]
 
-theorem firstViolation_flatMap (stateless : Bool) (version : Bytes) (l : List Msg) (d : Outcome) :
+theorem firstViolation_flatMap (stateless isBatch : Bool) (version : Bytes) (l : List Msg) (d : Outcome) :
     firstViolation (l.flatMap (msgChecks stateless version)) d =
-      (match l.findSome? (msgGate stateless version) with | some o => o | none => d) := by
+      (match l.findSome? (msgGate stateless isBatch version) with | some o => o | none => d) := by
   induction l with
   | nil => rfl
   | cons m ms ih =>
-    rw [List.flatMap_cons, firstViolation_append, msgGate_table, ih, List.findSome?_cons]
-    cases msgGate stateless version m <;> rfl
+    rw [List.flatMap_cons, firstViolation_append, msgGate_table stateless isBatch, ih, List.findSome?_cons]
+    cases msgGate stateless isBatch version m <;> rfl
 
 def contentMsgs (r : Req) : List Msg := match r.content with | .msgs _ l => l | .malformed => []
 def contentBatch (r : Req) : Bool := match r.content with | .msgs b _ => b | .malformed => false
@@ -462,8 +475,7 @@ def postChecks (c : B64) (stateless bodyRead : Bool) (r : Req) : List (Bool × O
 theorem servePOST_table (c : B64) (stateless bodyRead : Bool) (r : Req) :
     servePOST c stateless bodyRead r = firstViolation (postChecks c stateless bodyRead r) (.dispatched (hasCalls r)) := by
   unfold servePOST postChecks
-  simp only [List.cons_append, List.nil_append, firstViolation_cons, firstViolation_append, firstViolation_flatMap,
-    firstViolation_nil]
+  simp only [List.cons_append, List.nil_append, firstViolation_cons, firstViolation_append, firstViolation_nil]
   split
   · rfl
   have hbg : (if bodyRead = true then none else bodyGate r) =
@@ -486,7 +498,8 @@ theorem servePOST_table (c : B64) (stateless bodyRead : Bool) (r : Req) :
     simp only [contentMalformed, contentBatch, contentMsgs, hc, Bool.false_eq_true, if_false]
     split
     · rfl
-    cases hf : l.findSome? (msgGate stateless r.version) with
+    rw [firstViolation_flatMap stateless isBatch]
+    cases hf : l.findSome? (msgGate stateless isBatch r.version) with
     | some o => rfl
     | none =>
       simp only [headerMismatch, hasCalls, contentMsgs, hc]
@@ -685,7 +698,7 @@ structure Pre (c : B64) (r : Req) : Prop where
   noBatch : batchGateRejects (contentBatch r) (effVersion r.version) = false
   perMessage : ∀ m ∈ contentMsgs r, m.isReq = true →
     m.check = .ok ∧
-    (perRequestMetaApplies (effVersion r.version) m.metaVersion = true →
+    (metaApplies (effVersion r.version) m.metaVersion = true →
       (r.kind = .stateless ∨ m.method = methodDiscover) ∧ r.version ≠ [] ∧ m.metaVersion ≠ [] ∧ r.version = m.metaVersion)
   /-- under 2026-07-28 the standard headers mirror the (single) request -/
   mirror : ∀ m, soleMsg r = some m → m.isReq = true → standardHeadersSkipped r.version = false →
@@ -697,7 +710,7 @@ structure Pre (c : B64) (r : Req) : Prop where
 theorem msgChecks_false {s : Bool} {v : Bytes} {m : Msg} (hr : m.isReq = true)
     (h : ∀ x ∈ msgChecks s v m, x.1 = false) :
     m.check = .ok ∧
-    (perRequestMetaApplies (effVersion v) m.metaVersion = true →
+    (metaApplies (effVersion v) m.metaVersion = true →
       (s = true ∨ m.method = methodDiscover) ∧ v ≠ [] ∧ m.metaVersion ≠ [] ∧ v = m.metaVersion) := by
   unfold msgChecks at h
   simp only [hr, Bool.not_true, Bool.false_eq_true, if_false, List.forall_mem_cons, List.not_mem_nil,
@@ -913,7 +926,7 @@ theorem dispatch_sound_sse (c : B64) (r : Req) (hk : r.kind = .sse) (b : Bool)
 `server/discover` — whatever the other headers and the rest of the body are. -/
 theorem stateful_rejects_new_protocol (c : B64) (r : Req) (hk : r.kind = .stateful)
     (m : Msg) (hm : m ∈ contentMsgs r) (hr : m.isReq = true)
-    (hnew : perRequestMetaApplies (effVersion r.version) m.metaVersion = true)
+    (hnew : metaApplies (effVersion r.version) m.metaVersion = true)
     (hd : m.method ≠ methodDiscover) (b : Bool) : verdict c r ≠ .dispatched b := by
   intro h
   have hp := dispatch_sound c r (by rw [hk]; simp) b h
@@ -922,6 +935,129 @@ theorem stateful_rejects_new_protocol (c : B64) (r : Req) (hk : r.kind = .statef
   rcases h3 with h3 | h3
   · rw [hk] at h3; cases h3
   · exact hd h3
+
+/-! ## The SEP-2575 gates do not depend on the body being a JSON array
+
+`readBatch` yields the messages of the body and the flag `isBatch` (the body is a JSON array, of 1 or more elements).
+The flag is consulted twice in `servePOST`: by the batch gate (arrays are refused when the header version is
+≥ 2025-06-18) and by the standard-header mirror (`!isBatch && len(incoming) == 1`).  Everything the per-message loop
+decides — in particular that a request carrying a `_meta` protocol version needs an equal `Mcp-Protocol-Version` header —
+is the same for a message inside an array (header absent or naming a version under which arrays are legal) as for the
+message alone. -/
+
+/-- **msgGate_ignores_batch.** The per-message gates of `servePOST` answer the same whether or not the body is an array. -/
+theorem msgGate_ignores_batch (s b : Bool) (v : Bytes) (m : Msg) : msgGate s b v m = msgGate s false v m := by
+  unfold msgGate
+  simp only [meta_gate_ignores_batch]
+
+/-- **batched_meta_needs_matching_header.** Whatever the shape of the body (a single message, or an array of any
+length: no hypothesis on `contentBatch r`) and whatever else the request carries: if some request of the body has a
+`_meta` protocol version and the `Mcp-Protocol-Version` header is absent or differs from it, nothing is handed to the
+server — by the stateless and by the stateful handler. -/
+theorem batched_meta_needs_matching_header (c : B64) (r : Req) (hk : r.kind ≠ .sse)
+    (m : Msg) (hm : m ∈ contentMsgs r) (hr : m.isReq = true) (hmv : m.metaVersion ≠ [])
+    (hne : r.version ≠ m.metaVersion) (b : Bool) : verdict c r ≠ .dispatched b := by
+  intro h
+  have hp := dispatch_sound c r hk b h
+  obtain ⟨_, h2⟩ := hp.perMessage m hm hr
+  have happ : metaApplies (effVersion r.version) m.metaVersion = true := by simp [metaApplies, hmv]
+  exact hne (h2 happ).2.2.2
+
+/-- **meta_mismatch_answer.** The answer of the (stateless) per-message gate to a well-formed request whose `_meta`
+protocol version is not mirrored by the header (absent, or different): 400 with `-32020` — inside an array or not. -/
+theorem meta_mismatch_answer (b : Bool) (v : Bytes) (m : Msg) (hr : m.isReq = true) (hc : m.check = .ok)
+    (hmv : m.metaVersion ≠ []) (hne : v ≠ m.metaVersion) :
+    msgGate true b v m = some (rejRpc 400 codeHeaderMismatch) := by
+  rw [msgGate_ignores_batch]
+  unfold msgGate
+  have happ : perRequestMetaApplies false (effVersion v) m.metaVersion = true := by
+    rw [meta_gate_ignores_batch]; simp [metaApplies, hmv]
+  simp only [hr, Bool.not_true, Bool.false_eq_true, if_false, hc, happ, if_true, Bool.false_and, hmv]
+  by_cases hv : v = []
+  · simp [hv]
+  · simp [hv, hne]
+
+/-- **stateful_meta_answer.** The answer of a stateful handler's per-message gate to a well-formed request under the
+per-request metadata rules (other than `server/discover`): 400 with `-32022` — inside an array or not. -/
+theorem stateful_meta_answer (b : Bool) (v : Bytes) (m : Msg) (hr : m.isReq = true) (hc : m.check = .ok)
+    (happ : metaApplies (effVersion v) m.metaVersion = true) (hd : m.method ≠ methodDiscover) :
+    msgGate false b v m = some (rejRpc 400 codeUnsupportedProtocolVersion) := by
+  rw [msgGate_ignores_batch]
+  unfold msgGate
+  have happ' : perRequestMetaApplies false (effVersion v) m.metaVersion = true := by
+    rw [meta_gate_ignores_batch]; exact happ
+  simp [hr, hc, happ', hd]
+
+/-- Go's `<` on strings is transitive. -/
+theorem bLt_trans : ∀ (a b c : Bytes), bLt a b = true → bLt b c = true → bLt a c = true
+  | [], [], _, h, _ => by simp [bLt] at h
+  | [], _ :: _, [], _, h => by simp [bLt] at h
+  | [], _ :: _, _ :: _, _, _ => by simp [bLt]
+  | _ :: _, [], _, h, _ => by simp [bLt] at h
+  | _ :: _, _ :: _, [], _, h => by simp [bLt] at h
+  | x :: xs, y :: ys, z :: zs, h1, h2 => by
+    simp only [bLt, Bool.or_eq_true, decide_eq_true_eq, Bool.and_eq_true, beq_iff_eq] at h1 h2 ⊢
+    rcases h1 with h1 | ⟨h1, h1'⟩ <;> rcases h2 with h2 | ⟨h2, h2'⟩
+    · left; omega
+    · left; omega
+    · left; omega
+    · right; exact ⟨by omega, bLt_trans xs ys zs h1' h2'⟩
+
+/-- Where an array body is legal (header absent, or a version before 2025-06-18) the standard-header mirror
+(`Mcp-Method` / `Mcp-Name` / `Mcp-Param-*`) is not in force. -/
+theorem legal_batch_skips_standard_headers (v : Bytes) (hb : batchGateRejects true (effVersion v) = false) :
+    standardHeadersSkipped v = true := by
+  unfold standardHeadersSkipped
+  by_cases hv : v = []
+  · simp [hv]
+  · have he : effVersion v = v := by simp [effVersion, hv]
+    rw [he] at hb
+    have h1 : bLt v protocolVersion20250618 = true := by simpa [batchGateRejects, bLe] using hb
+    have h2 : bLt protocolVersion20250618 minVersionForStandardHeaders = true := by decide
+    simp [bLt_trans _ _ _ h1 h2]
+
+theorem validateMcpHeaders_skipped (c : B64) {pv : Bytes} (mm mn : Bytes) (ph : ParamHdrs) (m : Msg)
+    (hs : standardHeadersSkipped pv = true) : validateMcpHeaders c pv mm mn ph m = none := by
+  simp [validateMcpHeaders, hs]
+
+theorem servePOST_array_transparent (c : B64) (s br : Bool) (r : Req) (l : List Msg)
+    (hb : batchGateRejects true (effVersion r.version) = false) :
+    servePOST c s br { r with content := .msgs true l } = servePOST c s br { r with content := .msgs false l } := by
+  have hs := legal_batch_skips_standard_headers r.version hb
+  have hb' : batchGateRejects false (effVersion r.version) = false := by simp [batchGateRejects]
+  have hg : msgGate s true r.version = msgGate s false r.version := by
+    funext m; exact msgGate_ignores_batch s true r.version m
+  have hbg : ∀ x, bodyGate { r with content := x } = bodyGate r := fun _ => rfl
+  unfold servePOST
+  simp only [hbg, hb, hb', hg, soleMsg, Bool.false_eq_true, if_false]
+  rcases l with _ | ⟨m, _ | ⟨m', t⟩⟩ <;> simp only [validateMcpHeaders_skipped c _ _ _ _ hs]
+
+/-- Two requests that differ at most in what `servePOST` looks at beyond the outer gates get the same answer from the
+streamable handlers as soon as `servePOST` answers them alike. -/
+theorem verdict_congr_servePOST (c : B64) (r r1 : Req) (hk' : r.kind ≠ .sse)
+    (hk : r1.kind = r.kind) (ho : r1.originRejects = r.originRejects) (hv : r1.version = r.version)
+    (hm : r1.method = r.method) (hbm : r1.baseMedia = r.baseMedia) (hacc : r1.accept = r.accept)
+    (hs : r1.sess = r.sess) (hn : r1.noSessionIds = r.noSessionIds)
+    (hh : hostGateRejects r1 = hostGateRejects r) (hb : bodyGate r1 = bodyGate r)
+    (hp : ∀ s br, servePOST c s br r1 = servePOST c s br r) : verdict c r1 = verdict c r := by
+  unfold verdict
+  rw [hk]
+  cases hkind : r.kind with
+  | sse => exact absurd hkind hk'
+  | stateless =>
+    simp only [serveStreamable, serveStateless, hk, ho, hv, hm, hbm, hacc, hh, hb, hp, hkind, if_true]
+  | stateful =>
+    simp only [serveStreamable, serveStateful, hk, ho, hv, hm, hbm, hacc, hs, hn, hh, hb, hp, hkind, reduceCtorEq, if_false]
+
+/-- **array_wrapping_transparent.** Where an array body is legal — the version header is absent or names a protocol
+before 2025-06-18 — the streamable handlers (stateless, stateful, ephemeral sessions) answer a body `[m₁, …, mₙ]`
+exactly as they would answer the same messages not wrapped in an array: wrapping cannot take a request past the
+header / `_meta` version agreement, nor past any other gate. (For n = 1 the right-hand side is the single message.) -/
+theorem array_wrapping_transparent (c : B64) (r : Req) (hk : r.kind ≠ .sse) (l : List Msg)
+    (hb : batchGateRejects true (effVersion r.version) = false) :
+    verdict c { r with content := .msgs true l } = verdict c { r with content := .msgs false l } :=
+  verdict_congr_servePOST c { r with content := .msgs false l } { r with content := .msgs true l } hk
+    rfl rfl rfl rfl rfl rfl rfl rfl rfl rfl (fun s br => servePOST_array_transparent c s br r l hb)
 
 /-! ## Body delivery: the limit counts delivered bytes; a declared length plays no role -/
 
@@ -1011,11 +1147,11 @@ theorem client_request_dispatched (c : B64) (hc : c.Lawful) (r : Req) (m : Msg) 
   rw [← h1, ← h2, ← h3] at hagree
   have hsole : soleMsg r = some m := by simp [soleMsg, hbody]
   have hvg : versionGateRejects r.version = false := by rw [hver]; decide
-  have hgate : msgGate true r.version m = none := by
+  have hgate : msgGate true false r.version m = none := by
     unfold msgGate
     simp only [hreq, Bool.not_true, Bool.false_eq_true, if_false, hcheck, hmeta]
     rw [hver]
-    have e1 : perRequestMetaApplies (effVersion protocolVersion20260728) protocolVersion20260728 = true := by decide
+    have e1 : perRequestMetaApplies false (effVersion protocolVersion20260728) protocolVersion20260728 = true := by decide
     have e2 : protocolVersion20260728 ≠ [] := by decide
     simp [e1, e2]
   unfold verdict
@@ -1103,6 +1239,39 @@ example : verdict idCodec { wReq .stateless with declared := some 4000, readFail
 /-- a chunked body within the limit is dispatched -/
 example : verdict idCodec { wReq .stateless with declared := none } = .dispatched true := by decide
 example : verdict idCodec { wReq .stateless with mcpName := [] } = rejRpc 400 codeHeaderMismatch := by decide
+
+/-! ### array bodies (`isBatch`) under every kind of version header -/
+
+/-- `ping` with an id, no `_meta`. -/
+def wPing : Msg :=
+  { isReq := true, method := [112, 105, 110, 103], isCall := true, check := .ok, metaVersion := [],
+    nameOk := false, name := [], args := .missing, tool := none }
+
+/-- arrays are legal when the header is absent or names 2025-03-26 / 2024-11-05 (hypothesis of
+`array_wrapping_transparent` is satisfiable), and only then among the supported versions -/
+example : batchGateRejects true (effVersion []) = false ∧ batchGateRejects true (effVersion protocolVersion20250326) = false ∧
+    batchGateRejects true (effVersion protocolVersion20241105) = false ∧
+    batchGateRejects true (effVersion protocolVersion20250618) = true ∧
+    batchGateRejects true (effVersion protocolVersion20251125) = true ∧
+    batchGateRejects true (effVersion protocolVersion20260728) = true := by decide
+/-- header absent, array of one request carrying `_meta` 2026-07-28: 400 / -32020 (header required) -/
+example : verdict idCodec { wReq .stateless with version := [], content := .msgs true [wMsg] } =
+    rejRpc 400 codeHeaderMismatch := by decide
+/-- header 2025-03-26, array `[ping, call with _meta 2026-07-28]`: 400 / -32020 (header differs from `_meta`) -/
+example : verdict idCodec { wReq .stateless with version := protocolVersion20250326, content := .msgs true [wPing, wMsg] } =
+    rejRpc 400 codeHeaderMismatch := by decide
+/-- the same array to a stateful handler: 400 / -32022 -/
+example : verdict idCodec { wReq .stateful with version := protocolVersion20241105, content := .msgs true [wPing, wMsg] } =
+    rejRpc 400 codeUnsupportedProtocolVersion := by decide
+/-- header 2026-07-28 (equal to `_meta`), array of one: refused by the batch gate, plain 400 -/
+example : verdict idCodec { wReq .stateless with content := .msgs true [wMsg] } = rej 400 := by decide
+/-- legacy header, array without `_meta` versions: dispatched (batching is legal there) -/
+example : verdict idCodec { wReq .stateless with version := protocolVersion20250326, content := .msgs true [wPing, wPing] } =
+    .dispatched true := by decide
+/-- a `_meta` version equal to a legacy header passes the agreement gate of a stateless handler, in an array or not -/
+def wPingMeta : Msg := { wPing with metaVersion := protocolVersion20250326 }
+example : verdict idCodec { wReq .stateless with version := protocolVersion20250326, content := .msgs true [wPingMeta] } =
+    .dispatched true := by decide
 
 /-- **preflight-F30 (counter-example for the unrepaired code).** An oversize body sent to a stateful handler whose server
 issues no session ids is answered 400 by the unrepaired branch, where the size gate mandates 413 (`oversize_status`). -/
